@@ -6,7 +6,7 @@ From Coq Require Import List NArith ZArith Lia Bool Arith ZifyBool ZifyN ZifyNat
 From Coq Require Import Strings.Byte.
 Require Import BS.Bytes BS.Common BS.CommonFacts BS.Api BS.Layout BS.Format BS.FormatFacts BS.Spec BS.SpecStep BS.Known BS.Judge BS.Sections.
 Require Import BS.FS BS.FSFacts BS.Meta BS.MetaFacts BS.Header BS.Reader BS.ReaderFacts BS.Index BS.Data BS.DataFacts BS.Seek BS.SeekFacts BS.Series BS.World.
-Require Import BS.SeriesFacts BS.ReadAllFacts BS.TotalFacts BS.CountFacts BS.OpenFacts BS.SampleFacts BS.CacheFacts BS.CacheOpenFacts BS.LevelFacts BS.JudgeFacts.
+Require Import BS.SeriesFacts BS.ReadAllFacts BS.TotalFacts BS.CountFacts BS.OpenFacts BS.SampleFacts BS.CacheFacts BS.CacheOpenFacts BS.LevelFacts BS.ExtractFacts BS.HeaderFacts BS.ParseFileFacts BS.CreateFailFacts BS.CacheCreateFacts BS.JudgeFacts.
 Import ListNotations.
 Close Scope N_scope. Open Scope nat_scope.
 
@@ -366,6 +366,307 @@ Proof.
 Qed.
 End SessionCachesNew.
 
+(* ---- files removed between two sessions ---- *)
+Definition rm_all (fs:fsys) (fl:list fname) : fsys := fold_left (fun fs f => if fs_mem fs f then fs_del fs f else fs) fl fs.
+Lemma rm_all_notin : forall fl fs g, ~ In g fl -> fs_get (rm_all fs fl) g = fs_get fs g.
+Proof.
+  induction fl as [|f t IH]; intros fs g NI; [reflexivity|]. cbn [rm_all fold_left]. fold (rm_all (if fs_mem fs f then fs_del fs f else fs) t).
+  rewrite IH by (intros Q; apply NI; right; exact Q).
+  destruct (fs_mem fs f); [|reflexivity]. apply fs_get_del_other. intros ->. apply NI. left. reflexivity.
+Qed.
+Lemma rm_all_none : forall fl fs g, fs_get fs g = None -> fs_get (rm_all fs fl) g = None.
+Proof.
+  induction fl as [|f t IH]; intros fs g G; [exact G|]. cbn [rm_all fold_left]. fold (rm_all (if fs_mem fs f then fs_del fs f else fs) t).
+  apply IH. destruct (fs_mem fs f); [|exact G].
+  destruct (list_eq_dec Byte.byte_eq_dec g f) as [->|N]; [apply fs_get_del_same|rewrite fs_get_del_other by exact N; exact G].
+Qed.
+Lemma rm_all_in : forall fl fs g, In g fl -> fs_get (rm_all fs fl) g = None.
+Proof.
+  induction fl as [|f t IH]; intros fs g IN; [destruct IN|]. cbn [rm_all fold_left]. fold (rm_all (if fs_mem fs f then fs_del fs f else fs) t).
+  destruct (list_eq_dec Byte.byte_eq_dec g f) as [->|N].
+  - apply rm_all_none. destruct (fs_mem fs f) eqn:M; [apply fs_get_del_same|].
+    rewrite CacheFacts.fs_mem_get in M. destruct (fs_get fs f); [discriminate|reflexivity].
+  - destruct IN as [E|IN]; [congruence|]. apply IH. exact IN.
+Qed.
+
+Lemma rms_accepted : forall fl w s rest, closed_agree w s -> ss_det s = true ->
+  (forall w' s', closed_agree w' s' -> ss_det s' = true -> w_fs w' = rm_all (w_fs w) fl -> accepted w' s' rest) ->
+  accepted w s (map OFsRm fl ++ rest).
+Proof.
+  induction fl as [|f t IH]; intros w s rest CA D K; [apply K; [exact CA|exact D|reflexivity]|].
+  destruct (rm_accepted w s f CA) as (OK & CA' & D' & FS').
+  cbn [map app accepted]. split; [exact OK|]. split.
+  - destruct CA' as (_ & Hs' & AG'). intros g. unfold judge_files, expected_files. rewrite Hs'. apply AG'.
+  - split; [rewrite D'; exact D|]. apply IH; [exact CA'|rewrite D'; exact D|].
+    intros w' s' CA2 D2 E2. apply K; [exact CA2|exact D2|]. rewrite E2, FS'. reflexivity.
+Qed.
+
+(* distinct elements of a list whose images are pairwise disjoint (NoDup of the flat_map) have disjoint images *)
+Lemma nodup_flat_map_disjoint {A} (f:A -> list fname) : forall (l:list A), NoDup (flat_map f l) ->
+  forall a b g, In a l -> In b l -> a <> b -> In g (f a) -> In g (f b) -> False.
+Proof.
+  induction l as [|x t IH]; intros ND a b g Ia Ib NE Ga Gb; [destruct Ia|].
+  cbn [flat_map] in ND. apply NoDup_app_inv in ND. destruct ND as (_ & NDt & DIS).
+  destruct Ia as [->|Ia]; destruct Ib as [->|Ib].
+  - congruence.
+  - apply (DIS g Ga). apply in_flat_map. exists b. split; assumption.
+  - apply (DIS g Gb). apply in_flat_map. exists a. split; assumption.
+  - apply (IH NDt a b g Ia Ib NE Ga Gb).
+Qed.
+
+(* ---- histories of a series with cache levels: sessions with clean close-and-reopen steps (same levels) at line counts
+        that are multiples of every bucket size (outside them: known finding D10) - C09 at the level of the judge ---- *)
+Section HistoryCaches.
+Variables (name:fname) (p:nat) (hdr:list byte) (Bs:list N).
+Let header := params_to_text BSgen.Consts.version (N.of_nat p) ++ hdr.
+Let cs := map (open_spec name) Bs.
+Let names := [name ++ ext_data; name ++ ext_index] ++ flat_map (cache_names name) Bs.
+Hypothesis Hh : (len header <= 65535)%N.
+Hypothesis Hp : (N.of_nat p < 2^64)%N.
+Hypothesis HBs : Forall (fun B => (1 <= B)%N /\ (len (config_header name B) <= 65535)%N) Bs.
+Hypothesis ND : NoDup names.
+Hypothesis SORT : StronglySorted le (map fst cs).
+
+(* both sides closed; the files of the series and of every level lie on disk as the last handle left them *)
+Definition RelSC (w:world) (s:sstate) (l:list line) : Prop :=
+  w_h w = None /\ ss_h s = None
+  /\ (exists sr, RepS (w_fs w) sr p (outer header) (outer []) l cs
+               /\ of_name (d_file (s_data sr)) = name ++ ext_data /\ of_name (ix_file (d_index (s_data sr))) = name ++ ext_index
+               /\ map cache_files (s_down sr) = map (cache_names name) Bs)
+  /\ (forall g, ~ In g names -> fs_get (w_fs w) g = None)
+  /\ (forall g, fs_get (w_fs w) g = sfs_get (ss_fs s) g)
+  /\ ss_det s = true.
+
+Lemma relsc_files w s l : RelSC w s l -> forall g, fs_get (w_fs w) g = sfs_get (judge_files s) g.
+Proof. intros (_ & Hs & _ & _ & F & _) g. unfold judge_files, expected_files. rewrite Hs. apply F. Qed.
+Lemma relsc_det w s l : RelSC w s l -> ss_det s = true.
+Proof. intros (_ & _ & _ & _ & _ & D). exact D. Qed.
+
+Theorem close_accepted_caches w s l : RelS name p hdr Bs w s l ->
+  snd (judge_step s OClose) (snd (step' w OClose)) = true /\ RelSC (fst (step' w OClose)) (fst (judge_step s OClose)) l.
+Proof.
+  intros RL. pose proof (rels_files name p hdr Bs ND w s l RL) as FILES.
+  destruct RL as (sr & h & Hw & Hs & R & N1 & N2 & NM & Oth & A1 & A2 & A3 & A4 & A5 & A6 & A7 & A8 & A9 & A10).
+  unfold judge_step, spec_step. rewrite Hs, A5. cbn [spec_step' step' step]. rewrite Hs, Hw. cbn [fst snd is_out].
+  split; [reflexivity|].
+  unfold RelSC, close_handle. cbn [w_h w_fs ss_h ss_fs ss_det].
+  split; [reflexivity|]. split; [reflexivity|]. split; [exists sr; repeat (split; [assumption|]); assumption|].
+  split; [exact Oth|]. split; [exact FILES|exact A10].
+Qed.
+
+(* where C09 is proved: the marker-word condition on the series and on every level (vacuous for payload sizes >= 4; outside it
+   known finding D6), and a number of lines that is a multiple of every bucket size (outside it known finding D10) *)
+Definition reopen_valid_caches (l:list line) (popt:option N) (hdropt:hdropt) : Prop :=
+  Forall (nm_sec p) (secs_of l) /\ (len (encode p l) < 2^64)%N
+  /\ (popt = None \/ popt = Some (N.of_nat p)) /\ match hdropt with HdrIs e => e = hdr | HdrAny => True end
+  /\ Forall (fun B => (exists k, length l = k * N.to_nat B) /\ Forall (nm_sec p) (secs_of (cache_of p (N.to_nat B) l))
+                      /\ (len (encode p (cache_of p (N.to_nat B) l)) < 2^64)%N) Bs.
+
+Theorem open_accepted_caches w s l popt hdropt cb : RelSC w s l -> reopen_valid_caches l popt hdropt ->
+  snd (judge_step s (OOpen name popt hdropt Bs cb)) (snd (step' w (OOpen name popt hdropt Bs cb))) = true
+  /\ RelS name p hdr Bs (fst (step' w (OOpen name popt hdropt Bs cb))) (fst (judge_step s (OOpen name popt hdropt Bs cb))) l.
+Proof.
+  intros (Hw & Hs & (sr & R & N1 & N2 & NMc) & Oth & F & DET) (NM & H64 & Hopt & HO & FA).
+  assert (FA' : Forall (fun B => (1 <= B)%N /\ (exists k, length l = k * N.to_nat B) /\ Forall (nm_sec p) (secs_of (cache_of p (N.to_nat B) l))
+                   /\ (len (config_header name B) <= 65535)%N /\ (len (encode p (cache_of p (N.to_nat B) l)) < 2^64)%N) Bs).
+  { apply Forall_forall. intros B HB. rewrite Forall_forall in FA, HBs. destruct (FA B HB) as (K1 & K2 & K3). destruct (HBs B HB) as (K4 & K5).
+    repeat split; assumption. }
+  destruct (reopen_caches_aligned_nm p (w_fs w) sr hdr name popt hdropt cb l Bs R N1 N2 NMc NM Hh H64 Hp Hopt HO FA')
+    as (s' & E & R' & CB & M1 & M2 & M3).
+  pose proof (rs_wf _ _ _ _ _ _ _ R) as W.
+  pose proof (rd_file _ _ _ _ _ _ _ _ (rs_data _ _ _ _ _ _ _ R)) as [GD _]. rewrite N1 in GD.
+  assert (SD : sfs_get (ss_fs s) (name ++ ext_data) = Some (outer header ++ encode p l)) by (rewrite <- F; exact GD).
+  cbn [step' step w_fs]. fold header in E. rewrite E. cbn [fst snd].
+  unfold judge_step, spec_step. rewrite Hs. cbn [spec_step'].
+  unfold spec_open. rewrite (close_handle_closed _ _ s Hs).
+  assert (NZ : existsb (fun B => (B =? 0)%N) Bs = false).
+  { apply not_true_is_false. intros Q. apply existsb_exists in Q. destruct Q as (B & HB & Z). rewrite Forall_forall in HBs.
+    destruct (HBs B HB) as [H1 _]. apply N.eqb_eq in Z. lia. }
+  rewrite NZ.
+  change (name ++ s_ext_data) with (name ++ ext_data). rewrite SD.
+  pose proof (parse_file_ok (N.of_nat p) hdr (encode p l) Hp Hh) as PF. cbv zeta in PF. fold header in PF.
+  rewrite PF. cbn [pf_p pf_user pf_region]. rewrite Nat2N.id.
+  assert (PO : match popt with Some q => negb (q =? N.of_nat p)%N | None => false end = false).
+  { destruct Hopt as [->| ->]; [reflexivity|]. rewrite N.eqb_refl. reflexivity. }
+  rewrite PO. rewrite (recover_encode p l W). rewrite (wf_lines_of_wf p l W). cbn [negb].
+  assert (TK : take (N.of_nat (length (encode p l))) (encode p l) = encode p l).
+  { unfold take, len. rewrite N.min_id, Nat2N.id. apply firstn_all. }
+  rewrite TK.
+  assert (OUT : forall e, e = hdr -> is_out (ROpened (N.of_nat (d_p (s_data s'))) hdr) (ROpened (N.of_nat p) e) = true).
+  { intros e ->. cbn [is_out]. rewrite (payload_size_caches _ _ _ _ _ _ _ R'), N.eqb_refl, bytes_eqb_refl. reflexivity. }
+  assert (PART : ~ In (name ++ s_ext_part) names -> True) by (intros _; exact I).
+  assert (REL : forall cbx, RelS name p hdr Bs {| w_fs := w_fs w; w_h := Some s' |}
+            {| ss_fs := sfs_del (ss_fs s) (name ++ s_ext_part);
+               ss_h := Some {| sh_name := name; sh_p := p; sh_hdr := hdr; sh_caches := Bs; sh_cb := cbx;
+                               sh_rlines := frev l; sh_rregion := frev (encode p l); sh_full := last_full p (encode p l); sh_dmg := None |};
+               ss_orig := sfs_del (ss_orig s) (name ++ ext_data); ss_det := ss_det s |} l).
+  { intros cbx. eexists s', _. cbn [w_h w_fs ss_h ss_fs ss_det sh_name sh_p sh_hdr sh_caches sh_dmg sh_rlines sh_rregion sh_full].
+    split; [reflexivity|]. split; [reflexivity|]. split; [exact R'|]. split; [exact M1|]. split; [exact M2|]. split; [exact M3|].
+    split; [exact Oth|].
+    repeat (split; [reflexivity|]).
+    split; [apply frev_rev|]. split; [apply frev_rev|]. split; [apply (last_full_encode p l W)|].
+    split; [|exact DET].
+    intros g NI. destruct (list_eq_dec Byte.byte_eq_dec g (name ++ s_ext_part)) as [->|G3]; [apply sfs_get_del_same|].
+    rewrite sfs_get_del_other by exact G3. rewrite <- F. apply Oth; assumption. }
+  destruct hdropt as [|e].
+  - cbn [fst snd]. split; [apply OUT; reflexivity|apply REL].
+  - cbn in HO. subst e. rewrite bytes_eqb_refl. cbn [fst snd]. split; [apply OUT; reflexivity|apply REL].
+Qed.
+
+(* ---- levels whose files were lost between two sessions (both files of each level in `lost` removed): the open re-creates
+        them from the source; the levels that stayed must be at a whole number of buckets ---- *)
+Lemma levels_on_disk_or fs l (lost:list N) : forall (down:list dsample) (Bl:list N),
+  Forall2 (cache_ok p fs l) down (map (open_spec name) Bl) ->
+  map cache_files down = map (cache_names name) Bl ->
+  Forall (fun B => (1 <= B)%N /\ (len (config_header name B) <= 65535)%N) Bl ->
+  Forall (fun B => In B lost \/ ((exists k, length l = k * N.to_nat B) /\ Forall (nm_sec p) (secs_of (cache_of p (N.to_nat B) l))
+                                 /\ (len (encode p (cache_of p (N.to_nat B) l)) < 2^64)%N)) Bl ->
+  Forall (fun B => In B lost \/ level_on_disk p fs name l B) Bl.
+Proof.
+  induction down as [|ds t IH]; intros Bl F2 NM FB FA; destruct Bl as [|B Bt]; try (inversion F2; fail); [constructor|].
+  cbn [map] in F2, NM. inversion F2 as [|? ? ? ? OK F2t]; subst. unfold cache_files at 1, cache_names at 1 in NM. injection NM as E1 E2 NT.
+  inversion FB as [|? ? (HB & HL) FBt]; subst. inversion FA as [|? ? ALT FAt]; subst.
+  constructor; [|apply (IH Bt F2t NT FBt FAt)].
+  destruct ALT as [IL|(HK & NMc & H64c)]; [left; exact IL|right].
+  destruct OK as [Hb CO]. cbn [open_spec fst snd] in *.
+  pose proof (CacheOf_files p (N.to_nat B) Hb fs ds _ _ l CO) as [[G1 _] [G2 _]].
+  rewrite E1 in G1. rewrite E2 in G2.
+  destruct (cache_as_series p fs ds (open_spec name B) l CbNone (conj Hb CO)) as (ch & cih & RH).
+  unfold level_on_disk. cbn [open_spec fst] in RH.
+  split; [exact HB|split; [exact HK|split; [exact (rh_wf _ _ _ _ _ _ RH)|split; [exact NMc|split; [exact HL|split; [exact H64c|split; [exact G1|exact G2]]]]]]].
+Qed.
+
+Definition lost_files (lost:list N) : list fname := flat_map (cache_names name) lost.
+
+Definition reopen_valid_lost (l:list line) (lost:list N) (popt:option N) (hdropt:hdropt) : Prop :=
+  incl lost Bs /\ Forall (nm_sec p) (secs_of l) /\ (len (encode p l) < 2^64)%N
+  /\ (popt = None \/ popt = Some (N.of_nat p)) /\ match hdropt with HdrIs e => e = hdr | HdrAny => True end
+  /\ Forall (fun B => In B lost \/ ((exists k, length l = k * N.to_nat B) /\ Forall (nm_sec p) (secs_of (cache_of p (N.to_nat B) l))
+                                    /\ (len (encode p (cache_of p (N.to_nat B) l)) < 2^64)%N)) Bs.
+
+Theorem lost_open_accepted w s l lost popt hdropt cb rest : RelSC w s l -> reopen_valid_lost l lost popt hdropt ->
+  (forall w' s', RelS name p hdr Bs w' s' l -> accepted w' s' rest) ->
+  accepted w s (map OFsRm (lost_files lost) ++ OOpen name popt hdropt Bs cb :: rest).
+Proof.
+  intros (Hw & Hs & (sr & R & N1 & N2 & NMc) & Oth & F & DET) (INC & NM & H64 & Hopt & HO & FA) K.
+  apply rms_accepted; [split; [exact Hw|split; [exact Hs|exact F]]|exact DET|].
+  intros w' s' (Hw' & Hs' & F') DET' EFS.
+  pose proof (rs_wf _ _ _ _ _ _ _ R) as W.
+  pose proof (rd_file _ _ _ _ _ _ _ _ (rs_data _ _ _ _ _ _ _ R)) as [GD _]. rewrite N1 in GD.
+  pose proof (rd_ix _ _ _ _ _ _ _ _ (rs_data _ _ _ _ _ _ _ R)) as [GI _]. rewrite N2 in GI.
+  pose proof ND as ND0. unfold names in ND0. apply (NoDup_app_inv [name ++ ext_data; name ++ ext_index]) in ND0. destruct ND0 as (_ & NDc & DIS).
+  assert (LF_in : forall g, In g (lost_files lost) -> In g (flat_map (cache_names name) Bs)).
+  { intros g Hg. unfold lost_files in Hg. apply in_flat_map in Hg. destruct Hg as (B & HB & Hg). apply in_flat_map. exists B. split; [apply INC; exact HB|exact Hg]. }
+  assert (KEEP : forall g, ~ In g (lost_files lost) -> fs_get (w_fs w') g = fs_get (w_fs w) g).
+  { intros g NI. rewrite EFS. apply rm_all_notin. exact NI. }
+  assert (GD' : fs_get (w_fs w') (name ++ ext_data) = Some (outer header ++ encode p l)).
+  { rewrite KEEP; [exact GD|]. intros Q. apply (DIS (name ++ ext_data)); [cbn [In]; auto|apply LF_in; exact Q]. }
+  assert (GI' : fs_get (w_fs w') (name ++ ext_index) = Some (outer [] ++ enc_index (sections p (encode p l)))).
+  { rewrite KEEP; [exact GI|]. intros Q. apply (DIS (name ++ ext_index)); [cbn [In]; auto|apply LF_in; exact Q]. }
+  pose proof (levels_on_disk_or (w_fs w) l lost _ Bs (rs_caches _ _ _ _ _ _ _ R) NMc HBs FA) as LD.
+  assert (FL : Forall (fun B => level_on_disk p (w_fs w') name l B \/ level_missing (w_fs w') name B) Bs).
+  { apply Forall_forall. intros B HB. rewrite Forall_forall in LD, HBs. destruct (HBs B HB) as (HB1 & HB2).
+    destruct (in_dec N.eq_dec B lost) as [IL|NL].
+    - right. unfold level_missing. split; [exact HB1|]. split; [exact HB2|].
+      split; rewrite CacheFacts.fs_mem_get, EFS, rm_all_in; try reflexivity; unfold lost_files; apply in_flat_map; exists B; (split; [exact IL|cbn [cache_names In]; auto]).
+    - left. destruct (LD B HB) as [IL|OD]; [contradiction|].
+      apply (level_on_disk_frame p (w_fs w) (w_fs w')); [exact OD|].
+      intros g Hg. apply KEEP. intros Q. unfold lost_files in Q. apply in_flat_map in Q. destruct Q as (B' & HB' & Hg').
+      apply (nodup_flat_map_disjoint (cache_names name) Bs NDc B B' g HB (INC _ HB')); [intros ->; contradiction|exact Hg|exact Hg']. }
+  destruct (builder_open_mixed p (w_fs w') name hdr popt hdropt cb l Bs W NM Hh H64 Hp GD' GI' Hopt HO FL ND)
+    as (fs2 & s2 & E & R2 & CB & M1 & M2 & M3 & FR & _).
+  assert (SD : sfs_get (ss_fs s') (name ++ ext_data) = Some (outer header ++ encode p l)) by (rewrite <- F'; exact GD').
+  assert (OTH' : forall g, ~ In g names -> fs_get (w_fs w') g = None).
+  { intros g NI. rewrite EFS. apply rm_all_none. apply Oth. exact NI. }
+  assert (STEP : step' w' (OOpen name popt hdropt Bs cb) = ({| w_fs := fs2; w_h := Some s2 |}, ROpened (N.of_nat (d_p (s_data s2))) hdr)).
+  { cbn [step' step w_fs]. fold header in E. rewrite E. reflexivity. }
+  assert (NZ : existsb (fun B => (B =? 0)%N) Bs = false).
+  { apply not_true_is_false. intros Q. apply existsb_exists in Q. destruct Q as (B & HB & Z). rewrite Forall_forall in HBs.
+    destruct (HBs B HB) as [H1 _]. apply N.eqb_eq in Z. lia. }
+  assert (PO : match popt with Some q => negb (q =? N.of_nat p)%N | None => false end = false).
+  { destruct Hopt as [->| ->]; [reflexivity|]. rewrite N.eqb_refl. reflexivity. }
+  assert (TK : take (N.of_nat (length (encode p l))) (encode p l) = encode p l).
+  { unfold take, len. rewrite N.min_id, Nat2N.id. apply firstn_all. }
+  pose proof (parse_file_ok (N.of_nat p) hdr (encode p l) Hp Hh) as PF. cbv zeta in PF. fold header in PF.
+  assert (REL : forall cbx, RelS name p hdr Bs {| w_fs := fs2; w_h := Some s2 |}
+            {| ss_fs := sfs_del (ss_fs s') (name ++ s_ext_part);
+               ss_h := Some {| sh_name := name; sh_p := p; sh_hdr := hdr; sh_caches := Bs; sh_cb := cbx;
+                               sh_rlines := frev l; sh_rregion := frev (encode p l); sh_full := last_full p (encode p l); sh_dmg := None |};
+               ss_orig := sfs_del (ss_orig s') (name ++ ext_data); ss_det := ss_det s' |} l).
+  { intros cbx. eexists s2, _. cbn [w_h w_fs ss_h ss_fs ss_det sh_name sh_p sh_hdr sh_caches sh_dmg sh_rlines sh_rregion sh_full].
+    split; [reflexivity|]. split; [reflexivity|]. split; [exact R2|]. split; [exact M1|]. split; [exact M2|]. split; [exact M3|].
+    split.
+    { intros g NI. rewrite FR; [apply OTH'; exact NI|]. right. intros Q. apply NI. unfold names. apply in_or_app. right. exact Q. }
+    repeat (split; [reflexivity|]).
+    split; [apply frev_rev|]. split; [apply frev_rev|]. split; [apply (last_full_encode p l W)|].
+    split; [|exact DET'].
+    intros g NI. destruct (list_eq_dec Byte.byte_eq_dec g (name ++ s_ext_part)) as [->|G3]; [apply sfs_get_del_same|].
+    rewrite sfs_get_del_other by exact G3. rewrite <- F'. apply OTH'; assumption. }
+  assert (JS : exists cbx, judge_step s' (OOpen name popt hdropt Bs cb) =
+     ({| ss_fs := sfs_del (ss_fs s') (name ++ s_ext_part);
+         ss_h := Some {| sh_name := name; sh_p := p; sh_hdr := hdr; sh_caches := Bs; sh_cb := cbx;
+                         sh_rlines := frev l; sh_rregion := frev (encode p l); sh_full := last_full p (encode p l); sh_dmg := None |};
+         ss_orig := sfs_del (ss_orig s') (name ++ ext_data); ss_det := ss_det s' |},
+      fun o => is_out o (ROpened (N.of_nat p) hdr))).
+  { unfold judge_step, spec_step. rewrite Hs'. cbn [spec_step']. unfold spec_open. rewrite (close_handle_closed _ _ s' Hs'). rewrite NZ.
+    change (name ++ s_ext_data) with (name ++ ext_data). rewrite SD, PF. cbn [pf_p pf_user pf_region]. rewrite Nat2N.id, PO.
+    rewrite (recover_encode p l W), (wf_lines_of_wf p l W). cbn [negb]. rewrite TK.
+    destruct hdropt as [|e]; [eexists; reflexivity|]. cbn in HO. subst e. rewrite bytes_eqb_refl. eexists; reflexivity. }
+  destruct JS as (cbx & JS).
+  pose proof (REL cbx) as RL2.
+  cbn [accepted]. rewrite STEP, JS. cbn [fst snd].
+  split; [cbn [is_out]; rewrite (payload_size_caches _ _ _ _ _ _ _ R2), N.eqb_refl, bytes_eqb_refl; reflexivity|].
+  split; [exact (rels_files name p hdr Bs ND _ _ _ RL2)|]. split; [exact (rels_det name p hdr Bs _ _ _ RL2)|].
+  apply (K _ _ RL2).
+Qed.
+
+Inductive chstep := CHOp (o:op) | CHReopen (popt:option N) (hdropt:hdropt) (cb:cbmode)
+  | CHLost (lost:list N) (popt:option N) (hdropt:hdropt) (cb:cbmode).      (* close, both files of every level in `lost` removed, open *)
+Fixpoint cflatten (hs:list chstep) : list op :=
+  match hs with
+  | [] => []
+  | CHOp o :: t => o :: cflatten t
+  | CHReopen a b c :: t => OClose :: OOpen name a b Bs c :: cflatten t
+  | CHLost lost a b c :: t => OClose :: map OFsRm (lost_files lost) ++ OOpen name a b Bs c :: cflatten t
+  end.
+Fixpoint chvalid (l:list line) (hs:list chstep) : Prop :=
+  match hs with
+  | [] => True
+  | CHOp o :: t => sess_op o /\ chvalid (next_lines p l o) t
+  | CHReopen a b _ :: t => reopen_valid_caches l a b /\ chvalid l t
+  | CHLost lost a b _ :: t => reopen_valid_lost l lost a b /\ chvalid l t
+  end.
+
+Lemma chist_accepted : forall hs w s l, RelS name p hdr Bs w s l -> chvalid l hs -> accepted w s (cflatten hs).
+Proof.
+  induction hs as [|[o|a b c|lost a b c] t IH]; intros w s l RL V; [exact I| | |].
+  - destruct V as [SO Vt]. destruct (step_accepted_caches name p hdr Bs Hh SORT w s l o RL SO) as (OK & RL').
+    cbn [cflatten accepted]. split; [exact OK|]. split; [exact (rels_files name p hdr Bs ND _ _ _ RL')|].
+    split; [exact (rels_det name p hdr Bs _ _ _ RL')|]. exact (IH _ _ _ RL' Vt).
+  - destruct V as [RO Vt]. destruct (close_accepted_caches w s l RL) as (OK1 & RC).
+    destruct (open_accepted_caches _ _ l a b c RC RO) as (OK2 & RL2).
+    cbn [cflatten accepted]. split; [exact OK1|]. split; [exact (relsc_files _ _ _ RC)|]. split; [exact (relsc_det _ _ _ RC)|].
+    split; [exact OK2|]. split; [exact (rels_files name p hdr Bs ND _ _ _ RL2)|]. split; [exact (rels_det name p hdr Bs _ _ _ RL2)|].
+    exact (IH _ _ _ RL2 Vt).
+  - destruct V as [RO Vt]. destruct (close_accepted_caches w s l RL) as (OK1 & RC).
+    cbn [cflatten accepted]. split; [exact OK1|]. split; [exact (relsc_files _ _ _ RC)|]. split; [exact (relsc_det _ _ _ RC)|].
+    apply (lost_open_accepted _ _ l lost a b c (cflatten t) RC RO). intros w' s' RL'. exact (IH _ _ _ RL' Vt).
+Qed.
+
+(* every history of a series created with cache levels - appends accepted or refused, reads, resampling reads, accessors, and
+   clean close-and-reopen steps with the same levels at aligned line counts, and reopen steps before which the files of any
+   of the levels were lost (those levels are re-created from the source at any line count; the levels that stayed must be
+   aligned) - is accepted by the judge at every step, and the model's files, those of every level included, are byte for byte
+   the judge's expected files *)
+Theorem history_accepted_caches cb hs : chvalid [] hs ->
+  accepted init_world judge_init (ONew name (N.of_nat p) hdr Bs cb :: cflatten hs).
+Proof.
+  intros V. destruct (new_accepted_caches name p hdr Bs Hh HBs ND cb) as [OK RL].
+  cbn [accepted]. split; [exact OK|]. split; [exact (rels_files name p hdr Bs ND _ _ _ RL)|]. split; [exact (rels_det name p hdr Bs _ _ _ RL)|].
+  exact (chist_accepted hs _ _ [] RL V).
+Qed.
+End HistoryCaches.
+
 (* the premises are satisfiable: two levels with bucket sizes 2 and 4 *)
 Example session_caches_example :
   let name := [x63] in let Bs := [2%N; 4%N] in
@@ -377,4 +678,43 @@ Proof.
   - repeat constructor; try lia; apply N.leb_le; vm_compute; reflexivity.
   - vm_compute. repeat constructor; cbn [In]; intuition discriminate.
   - vm_compute. repeat constructor; lia.
+Qed.
+
+(* the premises of history_accepted_caches are satisfiable: payload size 4, levels 2 and 4, four appends, a clean reopen at an
+   aligned count, a resampling read, a refused and four accepted appends, a second reopen that demands payload size and header *)
+Example history_caches_example :
+  let pay := [x01; x02; x03; x04] in
+  chvalid 4 [] [2%N; 4%N] []
+    [CHOp (OPush 10 pay); CHOp (OPush 20 pay); CHOp (OPush 70000 pay); CHOp (OPush 70010 pay); CHReopen None HdrAny CbNone;
+     CHOp (OReadN 2 Unb Unb); CHOp (OPush 5 pay); CHOp (OPush 70011 pay); CHOp (OPush 70012 pay); CHOp (OReadAll (Incl 11) Unb);
+     CHOp (OPush 140000 pay); CHOp (OPush 140001 pay); CHReopen (Some 4%N) (HdrIs []) CbDeny; CHOp OLen; CHOp (OReadN 1 Unb (Incl 70011));
+     CHOp (OPush 140002 pay); CHOp (OPush 140003 pay); CHLost [4%N] None HdrAny CbNone; CHOp (OReadN 2 Unb Unb); CHOp (OPush 140004 pay);
+     CHLost [2%N; 4%N] None HdrAny CbNone; CHOp (OPush 140005 pay); CHOp (OReadN 3 Unb Unb)].
+Proof.
+  cbv zeta.
+  assert (NM : forall m, Forall (nm_sec 4) (secs_of m)) by (intros m; apply Forall_forall; intros sct _; apply nm_p4; lia).
+  cbn [chvalid].
+  (* the lines after each step, evaluated innermost first (unfolding next_lines symbolically triples the term at every append) *)
+  repeat match goal with
+         | |- context [next_lines 4 ?l ?o] =>
+             lazymatch l with context [next_lines _ _ _] => fail | _ => idtac end;
+             let v := eval vm_compute in (next_lines 4 l o) in
+             replace (next_lines 4 l o) with v by (vm_compute; reflexivity)
+         end.
+  unfold reopen_valid_caches, reopen_valid_lost.
+  repeat match goal with
+         | |- _ /\ _ => split
+         | |- sess_op _ => constructor
+         | |- Forall (nm_sec 4) _ => apply NM
+         | |- Forall _ (_ :: _) => constructor
+         | |- Forall _ [] => constructor
+         | |- True => exact I
+         | |- incl _ _ => intros x Hx; cbn [In] in *; tauto
+         | |- In _ _ \/ _ => first [left; cbn [In]; auto; fail | right]
+         | |- _ = _ \/ _ = _ => first [left; reflexivity | right; reflexivity]
+         | |- (_ < _)%N => apply N.ltb_lt; vm_compute; reflexivity
+         | |- exists k, length _ = k * _ => first [exists 1; vm_compute; reflexivity | exists 2; vm_compute; reflexivity | exists 3; vm_compute; reflexivity
+                                                  | exists 4; vm_compute; reflexivity | exists 5; vm_compute; reflexivity | exists 6; vm_compute; reflexivity]
+         | |- _ = _ => reflexivity
+         end.
 Qed.
